@@ -978,6 +978,10 @@ void tickit_term_print(TickitTerm *tt, const char *str)
 
 void tickit_term_printn(TickitTerm *tt, const char *str, size_t len)
 {
+  /* write_str() takes a zero length to mean "use strlen()" */
+  if(!len)
+    return;
+
   (*tt->driver->vtable->print)(tt->driver, str, len);
 }
 
